@@ -2,6 +2,7 @@ import St4sd.Model.Hash
 import St4sd.Lemmas.C16Split
 import St4sd.Lemmas.C16Decode
 import St4sd.Lemmas.C16Fs
+import St4sd.Lemmas.C16Multi
 /-!
 # C16 — Memoization hashes identify equivalent work and nothing else
 
@@ -701,5 +702,168 @@ example : hashOne (fun x => 'h' :: x) false exBps [] (exSComp.resolve exFs) ≠
     ⟨none, "-n file:hAAA:ref".toList, "/bin/cat".toList, ["hAAA:ref".toList]⟩
     ⟨none, "-n file:hBBB:ref".toList, "/bin/cat".toList, ["hBBB:ref".toList]⟩ (by decide) (by decide) (by decide)
     (by decide) (by decide) (by decide)
+
+/-! ### the consumed files are a multiset: how many files, not only which contents
+
+`files` holds one `hash:method` entry per consumed file; equal entries (different files with the same contents
+consumed through the same method) are repeated, and the serialisation sorts the list, so the hash is a function
+of the **multiset** of entries.  (`Hash.hashOneSet`, the variant that builds a set, is refuted in `Witness.C16`.) -/
+
+/-- **`SameWork` is about the multiset of consumed files**: for entries of the shape the code produces, the last
+clause of `SameWork` says that the two lists of `hash:method` entries are permutations of each other — the same
+entries, each the same number of times. -/
+theorem same_work_iff_multiset (i₁ i₂ : Info) (g₁ : ∀ e ∈ i₁.files, goodEntry e = true)
+    (g₂ : ∀ e ∈ i₂.files, goodEntry e = true) :
+    SameWork i₁ i₂ ↔ i₁.image = i₂.image ∧ i₁.args = i₂.args ∧ i₁.exe = i₂.exe ∧ i₁.files.Perm i₂.files := by
+  constructor
+  · intro h
+    exact ⟨h.1, h.2.1, h.2.2.1, perm_of_sortStr_eq _ _ (same_work_same_entries i₁ i₂ g₁ g₂ h)⟩
+  · rintro ⟨a, b, c, d⟩
+    exact ⟨a, b, c, by rw [sortStr_perm _ _ d]⟩
+
+/-- **Same hash exactly when the same multiset of consumed files (and image, arguments, executable) — partial**
+(`SepFree`, well-shaped entries: as `same_hash_iff_same_work_partial`). -/
+theorem same_hash_iff_same_multiset_partial (md5 : S → S) (hinj : Function.Injective md5) (fuzzy : Bool)
+    (bps₁ bps₂ : Blueprints) (hs₁ hs₂ : List (Option S)) (c₁ c₂ : Comp) (i₁ i₂ : Info)
+    (hi₁ : mkInfo md5 fuzzy bps₁ (getH hs₁) c₁ = some i₁) (hi₂ : mkInfo md5 fuzzy bps₂ (getH hs₂) c₂ = some i₂)
+    (h₁ : SepFree i₁) (h₂ : SepFree i₂) (g₁ : ∀ e ∈ i₁.files, goodEntry e = true)
+    (g₂ : ∀ e ∈ i₂.files, goodEntry e = true) :
+    hashOne md5 fuzzy bps₁ hs₁ c₁ = hashOne md5 fuzzy bps₂ hs₂ c₂ ↔
+      i₁.image = i₂.image ∧ i₁.args = i₂.args ∧ i₁.exe = i₂.exe ∧ i₁.files.Perm i₂.files := by
+  rw [same_hash_iff_same_work_partial md5 hinj fuzzy bps₁ bps₂ hs₁ hs₂ c₁ c₂ i₁ i₂ hi₁ hi₂ h₁ h₂]
+  exact same_work_iff_multiset i₁ i₂ g₁ g₂
+
+/-- **One entry per consumed file**: `files` has exactly as many entries as the component has references to
+files that are there (directories contribute none; a missing file means no info at all) — whatever the contents,
+equal or not. -/
+theorem files_one_entry_per_consumed_file (md5 : S → S) (fuzzy : Bool) (bps : Blueprints) (ph : Nat → Option S)
+    (c : Comp) (i : Info) (hi : mkInfo md5 fuzzy bps ph c = some i) :
+    i.files.length = c.refs.countP Ref.isFile := by
+  obtain ⟨E, hE, hf⟩ := mkInfo_files md5 fuzzy bps ph c i hi
+  rw [hf, List.length_map, fileEntries_length md5 fuzzy ph _ E hE, (sortRefs_perm c.refs).countP_eq]
+
+private theorem perm_sum_map {α : Type} (f : α → Nat) (l₁ l₂ : List α) (h : l₁.Perm l₂) :
+    (l₁.map f).sum = (l₂.map f).sum := by
+  induction h with
+  | nil => rfl
+  | cons x _ ih => simp [ih]
+  | swap x y l => simp only [List.map_cons, List.sum_cons]; omega
+  | trans _ _ ih₁ ih₂ => exact ih₁.trans ih₂
+
+/-- **`files` is the multiset of the entries of the references**: the text `k` occurs in `files` as often as there
+are references that contribute it (in whatever order the references are declared). -/
+theorem files_multiset_of_references (md5 : S → S) (fuzzy : Bool) (bps : Blueprints) (ph : Nat → Option S)
+    (c : Comp) (i : Info) (hi : mkInfo md5 fuzzy bps ph c = some i) (k : S) :
+    i.files.count k = (c.refs.map (fun r => contrib k (entryOf md5 fuzzy ph r))).sum := by
+  obtain ⟨E, hE, hf⟩ := mkInfo_files md5 fuzzy bps ph c i hi
+  rw [hf, count_fileEntries md5 fuzzy ph k _ E hE]
+  exact perm_sum_map _ _ _ (sortRefs_perm c.refs)
+
+/-- **A different number of consumed files is different work — partial**: two components that consume a
+different number of files never get the same hash, even if all the files have the same contents and are consumed
+through the same method (k copies of a default configuration against k+1).  Partial as
+`same_hash_iff_same_work_partial` (`SepFree`, well-shaped entries). -/
+theorem different_number_of_files_different_hash_partial (md5 : S → S) (hinj : Function.Injective md5)
+    (fuzzy : Bool) (bps₁ bps₂ : Blueprints) (hs₁ hs₂ : List (Option S)) (c₁ c₂ : Comp) (i₁ i₂ : Info)
+    (hi₁ : mkInfo md5 fuzzy bps₁ (getH hs₁) c₁ = some i₁) (hi₂ : mkInfo md5 fuzzy bps₂ (getH hs₂) c₂ = some i₂)
+    (h₁ : SepFree i₁) (h₂ : SepFree i₂) (g₁ : ∀ e ∈ i₁.files, goodEntry e = true)
+    (g₂ : ∀ e ∈ i₂.files, goodEntry e = true)
+    (hn : c₁.refs.countP Ref.isFile ≠ c₂.refs.countP Ref.isFile) :
+    hashOne md5 fuzzy bps₁ hs₁ c₁ ≠ hashOne md5 fuzzy bps₂ hs₂ c₂ := by
+  intro e
+  have p := ((same_hash_iff_same_multiset_partial md5 hinj fuzzy bps₁ bps₂ hs₁ hs₂ c₁ c₂ i₁ i₂ hi₁ hi₂ h₁ h₂
+    g₁ g₂).mp e).2.2.2
+  have hl := p.length_eq
+  rw [files_one_entry_per_consumed_file md5 fuzzy bps₁ _ c₁ i₁ hi₁,
+    files_one_entry_per_consumed_file md5 fuzzy bps₂ _ c₂ i₂ hi₂] at hl
+  exact hn hl
+
+/-- … and so is a different number of files with one particular content and method: if the entry `k` occurs a
+different number of times, the hashes differ (`[X, X, Y]` against `[X, Y, Y]`). -/
+theorem different_multiplicity_different_hash_partial (md5 : S → S) (hinj : Function.Injective md5)
+    (fuzzy : Bool) (bps₁ bps₂ : Blueprints) (hs₁ hs₂ : List (Option S)) (c₁ c₂ : Comp) (i₁ i₂ : Info)
+    (hi₁ : mkInfo md5 fuzzy bps₁ (getH hs₁) c₁ = some i₁) (hi₂ : mkInfo md5 fuzzy bps₂ (getH hs₂) c₂ = some i₂)
+    (h₁ : SepFree i₁) (h₂ : SepFree i₂) (g₁ : ∀ e ∈ i₁.files, goodEntry e = true)
+    (g₂ : ∀ e ∈ i₂.files, goodEntry e = true) (k : S) (hn : i₁.files.count k ≠ i₂.files.count k) :
+    hashOne md5 fuzzy bps₁ hs₁ c₁ ≠ hashOne md5 fuzzy bps₂ hs₂ c₂ := by
+  intro e
+  have p := ((same_hash_iff_same_multiset_partial md5 hinj fuzzy bps₁ bps₂ hs₁ hs₂ c₁ c₂ i₁ i₂ hi₁ hi₂ h₁ h₂
+    g₁ g₂).mp e).2.2.2
+  exact hn (p.count_eq k)
+
+/-- the set-based variant forgets the multiplicity for **every** info: an entry that is already there adds nothing -/
+theorem set_based_files_lose_multiplicity (e : S) (l : List S) (h : e ∈ l) : dedupStr (e :: l) = dedupStr l := by
+  simp [dedupStr, h]
+
+/-- two copies of a configuration are not one copy; the order of the entries does not matter -/
+example : ¬ SameWork ⟨none, [], "x".toList, ["0a:copy".toList, "0a:copy".toList]⟩
+    ⟨none, [], "x".toList, ["0a:copy".toList]⟩ := by decide
+example : ¬ SameWork ⟨none, [], "x".toList, ["0a:copy".toList, "0a:copy".toList, "ff:copy".toList]⟩
+    ⟨none, [], "x".toList, ["0a:copy".toList, "ff:copy".toList, "ff:copy".toList]⟩ := by decide
+example : SameWork ⟨none, [], "x".toList, ["0a:copy".toList, "ff:copy".toList, "0a:copy".toList]⟩
+    ⟨none, [], "x".toList, ["ff:copy".toList, "0a:copy".toList, "0a:copy".toList]⟩ := by decide
+
+private def exCfg (name : String) : Ref :=
+  ⟨("data/" ++ name ++ ":copy").toList, ("data/" ++ name ++ ":copy").toList, "copy".toList, [],
+    .file (some "AAA".toList)⟩
+private def exMerge (refs : List Ref) : Comp :=
+  { name := "c".toList, stage := 0, location := [], mtime := 0, replica := none, exe := "/bin/cat".toList,
+    args := "-n".toList, refs := refs, backend := .loc }
+
+/-- non-vacuity of `different_number_of_files_different_hash_partial`: `first.cfg` and `second.cfg` with the same
+contents, both copied, against `first.cfg` alone (concrete injective stand-in for md5) -/
+example : hashOne (fun x => 'h' :: x) false exBps [] (exMerge [exCfg "first.cfg", exCfg "second.cfg"]) ≠
+    hashOne (fun x => 'h' :: x) false exBps [] (exMerge [exCfg "first.cfg"]) :=
+  different_number_of_files_different_hash_partial (fun x => 'h' :: x) (fun a b h => by simpa using h) false
+    exBps exBps [] [] _ _
+    ⟨none, "-n".toList, "/bin/cat".toList, ["hAAA:copy".toList, "hAAA:copy".toList]⟩
+    ⟨none, "-n".toList, "/bin/cat".toList, ["hAAA:copy".toList]⟩
+    (by decide) (by decide) (by decide) (by decide) (by decide) (by decide) (by decide)
+
+/-! ### a reference is one consumption
+
+`info_files` is keyed by the absolute reference: `Comp.distinctRefs` (`hashesD` is what the harness compares the
+real hashes with).  Every theorem above holds for every component, in particular for `c.distinctRefs`. -/
+
+theorem distinctRefs_nodup (c : Comp) : (c.distinctRefs.refs.map (·.abs)).Nodup := dedupAbs_nodup c.refs
+
+/-- references with pairwise different spellings: every one of them counts -/
+theorem distinctRefs_of_nodup (c : Comp) (h : (c.refs.map (·.abs)).Nodup) : c.distinctRefs = c := by
+  simp [Comp.distinctRefs, dedupAbs_id c.refs h]
+
+/-- **Stating a reference once more is not more work**: a further reference with the absolute spelling of one
+that is already there (the same reference twice, or the relative and the absolute spelling of a reference to a
+producer) changes neither hash. -/
+theorem restated_reference_same_hash (md5 : S → S) (fuzzy : Bool) (bps : Blueprints) (hs : List (Option S))
+    (c : Comp) (r : Ref) (h : ∃ r' ∈ c.refs, r'.abs = r.abs) :
+    hashOne md5 fuzzy bps hs ({ c with refs := r :: c.refs } : Comp).distinctRefs =
+      hashOne md5 fuzzy bps hs c.distinctRefs := by
+  simp [Comp.distinctRefs, dedupAbs_restated r c.refs h]
+
+/-- no hash while a referenced input is missing, with repeated references (every occurrence of the spelling
+sees the same file system) -/
+theorem no_hash_when_input_missing_distinct (md5 : S → S) (fuzzy : Bool) (bps : Blueprints)
+    (hs : List (Option S)) (c : Comp) (r : Ref) (hr : r ∈ c.refs)
+    (h : ∀ r' ∈ c.refs, r'.abs = r.abs → r'.Missing) : hashOne md5 fuzzy bps hs c.distinctRefs = none := by
+  obtain ⟨r', hr', he⟩ := dedupAbs_covers r c.refs hr
+  exact no_hash_when_input_missing md5 fuzzy bps hs c.distinctRefs r' hr'
+    (h r' (mem_dedupAbs r' c.refs hr') he)
+
+private theorem distinctRefs_withProduced (f : S → S) (c : Comp) :
+    (c.withProduced f).distinctRefs = c.distinctRefs.withProduced f := by
+  simp [Comp.distinctRefs, Comp.withProduced, dedupAbs_map (Ref.withProduced f) (withProduced_abs f)]
+
+/-- `fuzzy_ignores_produced_contents` for the hashes the harness observes -/
+theorem fuzzy_ignores_produced_contents_distinct (md5 : S → S) (bps : Blueprints) (f : S → S) (cs : List Comp) :
+    hashesD md5 true bps (cs.map (Comp.withProduced f)) = hashesD md5 true bps cs := by
+  unfold hashesD
+  rw [← fuzzy_ignores_produced_contents md5 bps f (cs.map Comp.distinctRefs)]
+  simp [List.map_map, Function.comp_def, distinctRefs_withProduced]
+
+/-- non-vacuity: `data/first.cfg:copy` stated twice is hashed as stated once, and differently from two files -/
+example : hashOne (fun x => 'h' :: x) false exBps [] (exMerge [exCfg "first.cfg", exCfg "first.cfg"]).distinctRefs =
+    hashOne (fun x => 'h' :: x) false exBps [] (exMerge [exCfg "first.cfg"]).distinctRefs ∧
+    hashOne (fun x => 'h' :: x) false exBps [] (exMerge [exCfg "first.cfg", exCfg "second.cfg"]).distinctRefs ≠
+    hashOne (fun x => 'h' :: x) false exBps [] (exMerge [exCfg "first.cfg"]).distinctRefs := by decide
 
 end St4sd.C16
